@@ -184,23 +184,35 @@ pub fn make(prop: &str, tier: Tier, seed: u64) -> Scenario {
             c.accounting = prop == "C19";
             c.intact = prop == "C17";
             let mut s = gen_history(prop, seed, p, c);
-            if prop == "C19" && r.chance(1, 2) {
-                // fill / overwrite / empty cycles: append steps that delete everything written so far
-                // and refill, values flipping between in-leaf and overflow form
-                let keys: std::collections::BTreeSet<K> = s.steps.iter().flat_map(|st| match st { Step::Commit { batch, .. } => batch.items.iter().map(|x| x.0).collect::<Vec<_>>(), _ => vec![] }).collect();
-                let keys: Vec<K> = keys.into_iter().collect();
-                if !keys.is_empty() {
-                    let cycles = r.range(1, 3);
-                    let mut stamp = 1_000_000u32;
-                    for cyc in 0..cycles {
-                        let del = Batch { items: keys.iter().map(|k| (*k, Act::Write(None))).collect(), ..Default::default() };
-                        s.steps.push(Step::Commit { batch: del, nonblocking: false });
-                        let fill = Batch { items: keys.iter().map(|k| { stamp += 1; (*k, Act::Write(Some(VSpec { len: if (stamp + cyc as u32) % 3 == 0 { 1400 + (stamp % 7000) } else { 1 + stamp % 1300 }, stamp }))) }).collect(), ..Default::default() };
-                        s.steps.push(Step::Commit { batch: fill, nonblocking: false });
+            let long = prop == "C19" && tier == Tier::Thorough && r.chance(1, 12);
+            if long || (prop == "C19" && r.chance(1, 3)) {
+                // fill / overwrite / empty cycles over one fixed key family, fills alternating between
+                // two fixed length layouts (see the frontier bound in exec.rs)
+                let n = if long { r.range(600, 2500) as usize } else { r.range(8, 120) as usize };
+                let mut kr = Rng::new(seed ^ 0xC19);
+                let keys: Vec<K> = { let mut v: Vec<Key> = (0..n).map(|_| kr.bytes32()).collect(); v.sort(); v.dedup(); v.into_iter().map(K).collect() };
+                let lens: Vec<(u32, u32)> = keys.iter().map(|_| { let a = gen_len(&mut kr, 25); let b = gen_len(&mut kr, 25); (a.min(20000), b.min(20000)) }).collect();
+                s.steps.clear();
+                let cycles = if long { r.range(5, 7) } else { r.range(5, 6) };
+                let mut stamp = 2_000_000u32;
+                // every cycle has the same structure (the bound compares like with like)
+                let with_overwrite = r.chance(1, 2);
+                for cyc in 0..cycles {
+                    let fill = Batch { items: keys.iter().zip(lens.iter()).map(|(k, l)| { stamp += 1; (*k, Act::Write(Some(VSpec { len: if cyc % 2 == 0 { l.0 } else { l.1 }, stamp }))) }).collect(), ..Default::default() };
+                    s.steps.push(Step::Commit { batch: fill, nonblocking: false });
+                    if with_overwrite {
+                        // overwrite half of the keys with the other layout's length and back again
+                        for flip in 0..2 {
+                            let ow = Batch { items: keys.iter().zip(lens.iter()).step_by(2).map(|(k, l)| { stamp += 1; (*k, Act::Write(Some(VSpec { len: if (cyc + flip) % 2 == 0 { l.1 } else { l.0 }, stamp }))) }).collect(), ..Default::default() };
+                            s.steps.push(Step::Commit { batch: ow, nonblocking: false });
+                        }
                     }
                     let del = Batch { items: keys.iter().map(|k| (*k, Act::Write(None))).collect(), ..Default::default() };
                     s.steps.push(Step::Commit { batch: del, nonblocking: false });
                 }
+                s.probes.clear();
+                if long { s.opts.buckets = s.opts.buckets.max(5000); }
+                s.extra = json!({ "c19_cycles": true, "max_steps": if long { 2_000_000_000u64 } else { 100_000_000u64 } });
             }
             s
         }
